@@ -37,7 +37,7 @@ def c08(ctx):
     wide = C('{"gen", "imp", "der", "set", "copy", "destroy", "get", "wrap", "login", "trust"}', 3, "full")
     if quick:
         graphs = [("c08-full2", C(acts, 2, "full"), ["aes"]),
-                  ("c08-priv2", C(actsp, 2, "small"), ["generic"]),
+                  ("c08-priv2", C(actsp, 2, "full"), ["generic"]),
                   ("c08-ec", C(actsk, 2, "small", '{"enc"}'), ["ecpriv"])]
     else:
         graphs = [("c08-full2", C(acts, 2, "full"), ["aes", "generic", "des3"]),
